@@ -217,12 +217,20 @@ Definition builtin (f : string) (args : list value) : option ctl :=
   else if f =? "konst::cmp_str" then match args with [VStr a; VStr b] => Some (CVal (ordering (String.compare a b))) | _ => None end
   else if f =? "konst::eq_str" then match args with [VStr a; VStr b] => Some (CVal (VBool (String.eqb a b))) | _ => None end
   else if f =? "into" then match args with [v] => Some (CVal v) | _ => None end
+  else if f =? "to_string" then
+    (* Display of a string-like value; a `Cow` dereferences to what it holds *)
+    match args with
+    | [VStr s] | [VCon "Cow::Owned" [VStr s]] | [VCon "Cow::Borrowed" [VStr s]] => Some (CVal (VStr s))
+    | _ => None
+    end
+  else if f =? "Binary::default" then match args with [] => Some (CVal (VCon "Binary::default" [])) | _ => None end
   else if f =? "unwrap_or_default_string" then
     match args with [VCon "Some" [v]] => Some (CVal v) | [VCon "None" []] => Some (CVal (VStr "")) | _ => None end
   else None.
 
 Definition is_builtin (f : string) : bool :=
-  existsb (String.eqb f) ["len"; "is_empty"; "konst::cmp_str"; "konst::eq_str"; "into"; "unwrap_or_default_string"].
+  existsb (String.eqb f) ["len"; "is_empty"; "konst::cmp_str"; "konst::eq_str"; "into"; "to_string"; "Binary::default";
+                          "unwrap_or_default_string"].
 
 Definition binop (op : string) (a b : value) : option ctl :=
   match a, b with
